@@ -100,13 +100,13 @@ class C02(Check):
     def units(self, tier, seed):
         nmax = 5 if tier == 'thorough' else 4
         self.bounds = {'ref_atoms': [1, nmax], 'graphs': {n: len(xm.ref_graphs(n)) for n in range(3, nmax + 1)},
-                       'geometry_classes': list(xm.GEO) + list(xm.BENT) + list(xm.NEAR) + ['collapse'], 'two_atom_axis_classes': list(AX2),
+                       'geometry_classes': list(xm.GEO) + list(xm.BENT) + list(xm.NEAR) + ['collapse', 'trigonal'], 'two_atom_axis_classes': list(AX2),
                        'targets': [list(t) for t in TARGETS], 'scale_factors': list(SCALES),
                        'rotations': 27, 'translations': 3,
                        'full_cube_group_on': {'n<=4': list(QUICK_CUBE) if tier != 'thorough' else list(xm.GEO), 'n=5': list(QUICK_CUBE)}, 'draw_menu': [3, 3], 'tolerance_nm': TOL}
         u = []
         for n in range(3, nmax + 1):
-            for geo in list(xm.GEO) + list(xm.BENT) + list(xm.NEAR) + ['collapse']:
+            for geo in list(xm.GEO) + list(xm.BENT) + list(xm.NEAR) + ['collapse', 'trigonal']:
                 full = (tier == 'thorough' and n <= 4) or geo in QUICK_CUBE
                 mod = {3: 1, 4: 18 if full else 3, 5: 96 if full else 16}[n]
                 u += [{'k': 'g', 'n': n, 'geo': geo, 'mod': mod, 'r': r} for r in range(mod)]
@@ -131,6 +131,10 @@ class C02(Check):
                 # the target's coordinates held as float32 arrays (as a trajectory reader hands them over)
                 yield {'k': 'g', 'n': n, 'edges': edges, 'geo': unit['geo'], 'm': 3, 'place': 'between',
                        's': 0.5, 'rs': 'gen', 'f32': 1}
+                if unit['geo'] == 'generic':
+                    # ... or as INTEGER arrays (atoms created from whole-number lattice coordinates)
+                    yield {'k': 'g', 'n': n, 'edges': edges, 'geo': unit['geo'], 'm': 3, 'place': 'far',
+                           's': 0.5, 'rs': 'gen', 'f32': 2}
         elif unit['k'] == 'hub':
             for s in SCALES:
                 yield {'k': 'hub', 'hub': unit['hub'], 's': s}
@@ -235,7 +239,25 @@ class C02(Check):
         n, edges, geo, m, place, s = (case[x] for x in ('n', 'edges', 'geo', 'm', 'place', 's'))
         anch = xm.anchors(n, edges)
         fn = xm.frame_neighbours(n, edges)
-        if geo == 'collapse':
+        if geo == 'trigonal':
+            # an atom with exactly three bonds in an IDEAL trigonal-planar environment (neighbours at 120 degrees, equal
+            # bond lengths, in a plane of generic orientation): nothing collinear, the frame is fully determined
+            deg = {}
+            for a_, b_ in edges:
+                deg.setdefault(a_, []).append(b_)
+                deg.setdefault(b_, []).append(a_)
+            hubs = [a_ for a_ in sorted(deg) if len(deg[a_]) == 3]
+            if not hubs:
+                return
+            rpos = xm.ref_positions('generic', n, seed).copy()
+            G = xm.direction_table(seed)
+            e1 = G[5]
+            e2 = np.cross(G[5], G[6])
+            e2 /= np.linalg.norm(e2)
+            for k_, nb_ in enumerate(sorted(deg[hubs[0]])):
+                ang = 2.0 * np.pi * k_ / 3.0
+                rpos[nb_] = rpos[hubs[0]] + 0.15 * (np.cos(ang) * e1 + np.sin(ang) * e2)
+        elif geo == 'collapse':
             # generic, except that one anchor's lowest-numbered neighbour rests exactly ON it: the three frame points
             # are (trivially) collinear, the axis anchor -> second neighbour is all the reference determines
             rpos = xm.collapse_first_neighbour(xm.ref_positions('generic', n, seed), fn)
@@ -244,7 +266,9 @@ class C02(Check):
         else:
             rpos = xm.ref_positions(geo, n, seed)
         tpos = xm.target_positions(rpos, anch, m, place, seed)
-        tdtype = np.float32 if case.get('f32') else np.float64
+        tdtype = {0: np.float64, 1: np.float32, 2: np.int64}[case.get('f32', 0)]
+        if tdtype is np.int64:
+            tpos = np.round(tpos * 4.0)          # whole numbers, a few nm around the reference
         tpos = tpos.astype(tdtype).astype(np.float64)
         assign, _, _ = xm.ref_map(rpos, anch, tpos, s)
         # anchors within ~1e-9 of collinear (classes NEAR) leave the axis undetermined in practice: like the exactly
